@@ -187,8 +187,10 @@ class Fn:
         if nm is not None and nm not in known and local > self.arg_count and not self.locals[local]["mut"]:
             ds = [d for d in self.defs(local)]
             if len(ds) > 1 and all(d[0] in ("assign", "call") for d in ds):
-                # `let x = if c { a } else { b };` - one assignment per branch of an immutable variable
-                res = True
+                # `let x = if c { a } else { b };` - one assignment per branch of an immutable variable, at least
+                # one of them computed (a destructuring `let (a, b) = match v {..}` that merely moves fields stays
+                # a variable: it is a binding, not a named expression)
+                res = any(d[0] == "call" or d[3]["k"] in ("binop", "unop", "cast", "agg", "repeat") or (d[3]["k"] == "use" and d[3]["op"].get("k") == "const") for d in ds)
             elif len(ds) == 1 and ds[0][0] in ("assign", "call"):
                 if ds[0][0] == "call":
                     res = True
@@ -201,6 +203,11 @@ class Fn:
                         root_is_param = 1 <= pl["local"] <= self.arg_count
                         pure_fields = all(e.get("k") in ("deref", "field") for e in pl["proj"])
                         root_is_temp = pl["local"] > self.arg_count and not self.locals[pl["local"]]["user"]
+                        if root_is_temp:
+                            # only value temporaries (checked arithmetic, call results); a tuple built to be
+                            # destructured (`let (a, b) = match v {..}`) yields bindings, which stay variables
+                            tds = self.defs(pl["local"])
+                            root_is_temp = bool(tds) and all((d[0] == "call") or (d[0] == "assign" and d[3]["k"] in ("binop", "cast", "unop")) for d in tds)
                         # an alias of a field path of self / a parameter, or the value of a compiler temporary
                         # (the result of checked arithmetic, of a call ...)
                         res = bool((root_is_param and pure_fields and pl["proj"]) or (root_is_temp and pure_fields))
@@ -572,6 +579,8 @@ MAX_DEPTH = 40
 # has at the pin; CANON_VARS[fn] = names of its user variables at the pin.
 CANON_BINOPS = {}
 CANON_VARS = {}
+LOOK_THROUGH_DEFAULT = [True]
+FLAG_TEMPS_AS_PLACES = True  # boolean temporaries assigned on several paths stay places (the dataflow tracks them)
 INT_TYPES = ("u8", "u16", "u32", "u64", "u128", "usize", "i8", "i16", "i32", "i64", "i128", "isize", "bool")
 COMMUTATIVE = ("call:min", "call:max", "call:eq", "call:ne", "Add", "Mul", "BitAnd", "BitOr", "BitXor", "Eq", "Ne", "AddWithOverflow", "MulWithOverflow", "AddUnchecked", "MulUnchecked")
 MIRRORED = {"Lt": "Gt", "Gt": "Lt", "Le": "Ge", "Ge": "Le", "call:lt": "call:gt", "call:gt": "call:lt", "call:le": "call:ge", "call:ge": "call:le"}
@@ -608,12 +617,13 @@ def _canon_binop(fn, op, a, b):
 
 
 class ExprBuilder:
-    def __init__(self, prog, fn, inline=True, user_stop=False, look_through=True):
+    def __init__(self, prog, fn, inline=True, user_stop=False, look_through=None):
         self.prog = prog
         self.fn = fn
         self.inline = inline
         self.user_stop = user_stop  # keep user variables as named places
-        self.look_through = look_through  # look through `let`s the pinned tree does not have (is_new_let)
+        # look through `let`s the pinned tree does not have (is_new_let); None = the engine's current mode
+        self.look_through = LOOK_THROUGH_DEFAULT[0] if look_through is None else look_through
         self.memo = {}
 
     def operand(self, o, depth=0, stack=()):
@@ -719,7 +729,7 @@ class ExprBuilder:
             # multiply-defined or partially written: keep as a place, named if possible
             r = ("place", place_to_str(fn, local, []), fn.locals[local]["ty"])
             if not partial and len(full) > 1 and not user:
-                if fn.locals[local]["ty"] == "bool" and all(d[0] == "assign" and d[3]["k"] == "use" and d[3]["op"].get("k") == "const" for d in full):
+                if fn.locals[local]["ty"] == "bool" and FLAG_TEMPS_AS_PLACES:
                     # a flag temporary (`matches!(..)`, `a && b`): stays a place so that the dataflow can
                     # correlate it with the arm that set it
                     self.memo[key] = r
